@@ -108,6 +108,12 @@ theorem full_balanced_cpdef_only_false : ¬ FullBalancedFor true false := by
   have := h .legacy false false pf (.tryFin 11 (.ret 12) (.fail 14 true)) (by decide) (by decide) []
   exact absurd this (by decide)
 
+/-- the error exit WITHOUT an exception set (`__next__`: bare `raise StopIteration`) is covered by the main theorem:
+it reports its unwind like every other error exit, whoever consumes the NULL -/
+example : okFn prof ⟨1, 10, 30, .swallow⟩ (.seq (.simple 11) (.stopNoExc 12)) = true := by decide
+example : (runFn prof ⟨1, 10, 30, .swallow⟩ (.stopNoExc 12)) = ([⟨.start, 1, 10, 30⟩, ⟨.unwind, 1, 0, 0⟩], false) := by decide
+example : (runFn prof ⟨1, 10, 30, .plain⟩ (.stopNoExc 12)).2 = true := by decide
+
 /-! ### the repaired variants: the exclusions disappear -/
 theorem safe_of_fixed (cfg : Cfg) (hc : cfg.fixCpdef = true) (hr : cfg.fixRet = true) :
     ∀ (s : Stmt) (c : Fn), safe cfg c s = true := by
